@@ -1327,41 +1327,59 @@ example : parseMaxAge pyInt "142857142w".toList = .raised .invalidMaxAge := by d
 example : parseMaxAge pyInt [] = .raised .invalidMaxAge ∧ parseMaxAge pyInt ['w'] = .raised .invalidMaxAge ∧
     parseMaxAge pyInt "5x".toList = .raised .invalidMaxAge := by decide
 
-/-- `prepareCache`, the full statement "returns a cache for every option combination and file
-system state" is FALSE of the code: with `--clear-intersphinx-cache` and a cache directory that does
-not exist `shutil.rmtree` raises and nothing catches it (`prepareCache_counterexample`).  Exact
-description of when it raises: -/
-theorem prepareCache_raises_iff (toInt : Str → Option Int) (clear enable rmOk : Bool) (maxAge : Str) :
-    (∃ e, prepareCache toInt clear enable rmOk maxAge = .raised e) ↔
-      (clear = true ∧ rmOk = false) ∨ (enable = true ∧ ∃ e, parseMaxAge toInt maxAge = .raised e) := by
+/-- exact description of when `prepareCache` raises: `rmtree` fails with something other than
+"no such directory" while clearing, or the cache is enabled with an unparsable max age -/
+theorem prepareCache_raises_iff (toInt : Str → Option Int) (clear enable : Bool) (rm : RmResult) (maxAge : Str) :
+    (∃ e, prepareCache toInt clear enable rm maxAge = .raised e) ↔
+      (clear = true ∧ rm = .otherError) ∨ (enable = true ∧ ∃ e, parseMaxAge toInt maxAge = .raised e) := by
   unfold prepareCache
-  cases clear <;> cases rmOk <;> cases enable <;> simp <;>
+  cases clear <;> cases rm <;> cases enable <;> simp <;>
     (cases parseMaxAge toInt maxAge <;> simp)
 
-/-- under the decidable exclusion (the directory can be removed or is not asked to be, and the
-max-age option is well-formed when the cache is enabled) `prepareCache` returns -/
-theorem prepareCache_total_partial (toInt : Str → Option Int) (clear enable rmOk : Bool) (maxAge : Str)
-    (h1 : clear = false ∨ rmOk = true)
+/-- **prepareCache_missing_dir**: clearing a cache directory that does not exist is a no-op — the
+result is what it would be without `--clear-intersphinx-cache` (the case fixed by f96af79) -/
+theorem prepareCache_missing_dir (toInt : Str → Option Int) (enable : Bool) (maxAge : Str) :
+    prepareCache toInt true enable .missing maxAge = prepareCache toInt false enable .missing maxAge := by
+  simp [prepareCache]
+
+/-- `prepareCache` returns for every option combination and every state of the cache directory,
+existing or not, provided `rmtree` does not fail for another reason (permissions …) and the
+max-age option is well-formed when the cache is enabled.  The statement without these two
+hypotheses is false by `prepareCache_raises_iff`; both failures happen before any inventory is
+loaded. -/
+theorem prepareCache_total_partial (toInt : Str → Option Int) (clear enable : Bool) (rm : RmResult) (maxAge : Str)
+    (h1 : clear = false ∨ rm ≠ .otherError)
     (h2 : enable = false ∨ ∃ r, parseMaxAge toInt maxAge = .ok r) :
-    ∃ c, prepareCache toInt clear enable rmOk maxAge = .ok c := by
-  cases hp : prepareCache toInt clear enable rmOk maxAge with
+    ∃ c, prepareCache toInt clear enable rm maxAge = .ok c := by
+  cases hp : prepareCache toInt clear enable rm maxAge with
   | ok c => exact ⟨c, rfl⟩
   | raised e =>
     exfalso
-    rcases (prepareCache_raises_iff toInt clear enable rmOk maxAge).mp ⟨e, hp⟩ with ⟨hc, hr⟩ | ⟨he, e', hm⟩
+    rcases (prepareCache_raises_iff toInt clear enable rm maxAge).mp ⟨e, hp⟩ with ⟨hc, hr⟩ | ⟨he, e', hm⟩
     · rcases h1 with h | h
       · rw [h] at hc; cases hc
-      · rw [h] at hr; cases hr
+      · exact h hr
     · rcases h2 with h | ⟨r, h⟩
       · rw [h] at he; cases he
       · rw [h] at hm; cases hm
 
-example : (true = false ∨ true = true) ∧ (true = false ∨ ∃ r, parseMaxAge pyInt "1w".toList = .ok r) :=
-  ⟨Or.inr rfl, Or.inr ⟨("weeks".toList, 1), by decide⟩⟩
+example : (true = false ∨ RmResult.missing ≠ .otherError) ∧
+    (true = false ∨ ∃ r, parseMaxAge pyInt "1w".toList = .ok r) :=
+  ⟨Or.inr (by decide), Or.inr ⟨("weeks".toList, 1), by decide⟩⟩
 
-/-- clearing a cache directory that does not exist aborts (OSError/FileNotFoundError reaches `main`) -/
+example : prepareCache pyInt true true .missing "1w".toList = .ok (.caching "weeks".toList 1) := by decide
+
+/-- HISTORICAL (code before f96af79, `prepareCacheOld`): clearing a cache directory that does not
+exist aborted the run (FileNotFoundError reached `main`) -/
 theorem prepareCache_counterexample :
-    prepareCache pyInt true true false "1w".toList = .raised .osError := by decide
+    prepareCacheOld pyInt true true .missing "1w".toList = .raised .osError := by decide
+
+/-- the fix changed nothing else -/
+theorem prepareCacheOld_agrees (toInt : Str → Option Int) (clear enable : Bool) (rm : RmResult) (maxAge : Str)
+    (h : clear = false ∨ rm ≠ .missing) :
+    prepareCache toInt clear enable rm maxAge = prepareCacheOld toInt clear enable rm maxAge := by
+  unfold prepareCache prepareCacheOld
+  cases clear <;> cases rm <;> simp_all
 
 /-- **fetch_total**: whatever each download does — body, or any `Exception` — and whatever the bytes
 are, `fetchIntersphinxInventories` returns (only a `BaseException` such as KeyboardInterrupt passes
